@@ -24,6 +24,8 @@ int sched_finished(int id);
 void sched_yield_point(const char *what);
 /* block the calling thread until *flag becomes non-zero (harness-level hand-shake) */
 void sched_wait_flag(volatile int *flag);
+/* call after setting a flag another thread waits for with sched_wait_flag (release side of the hand-shake) */
+void sched_publish(void);
 /* bracket a harness step that is to be treated as one atomic scheduler step */
 void sched_atomic_begin(void);
 void sched_atomic_end(void);
@@ -45,6 +47,8 @@ extern long sched_max_points;
 extern int sched_signal_atomic;
 /* 1: every kernel wait may be interrupted (EINTR) as an MC_FAULT choice */
 extern int sched_fault_eintr;
+/* 1: from now on always take the default scheduling decision (used for the tear-down tail of an execution) */
+extern int sched_no_more_choices;
 extern long sched_points;
 
 /* queue a signal for thread tid; it is delivered by that thread itself
